@@ -9,6 +9,10 @@
 //	drop n          DROP DATABASE `n`
 //	undrop n        CALL dolt_undrop('n')
 //	purge           CALL dolt_purge_dropped_databases()
+//	burst n g       CREATE DATABASE n; DROP DATABASE n; ... at least g generations back to back (no other
+//	                statements in between except the cheap observations below), continued up to 6
+//	                generations until two consecutive drops fall into the same wall-clock second;
+//	                reported as its individual create / drop steps
 //
 // After every operation the harness reports whether it succeeded, the live
 // databases (exact names) each with a logical fingerprint (every branch with its
@@ -24,6 +28,7 @@ import (
 	"fmt"
 	"sort"
 	"strings"
+	"time"
 
 	"verifharness/hk"
 	"verifharness/util"
@@ -36,6 +41,7 @@ type Op struct {
 	N string `json:"n"`
 	M int    `json:"m"`
 	I int    `json:"i"`
+	G int    `json:"g"` // burst: at least this many create+drop generations of n, back to back
 }
 
 type Case struct {
@@ -50,6 +56,13 @@ type LiveDB struct {
 }
 
 type StepObs struct {
+	// the operation this observation belongs to (a burst is reported as its create / drop steps)
+	K       string   `json:"k"`
+	N       string   `json:"n,omitempty"`
+	M       int      `json:"m"`
+	I       int      `json:"i"`
+	Sec     int64    `json:"sec,omitempty"`     // drop inside a burst: wall-clock second at which it was issued
+	SameSec bool     `json:"samesec,omitempty"` // ... and it is the same second as the previous drop of the burst
 	OK      bool     `json:"ok"`
 	Arg     string   `json:"arg,omitempty"` // undropx: the holding-directory name that was used
 	Msg     string   `json:"msg,omitempty"`
@@ -203,6 +216,98 @@ func mutate(s *util.Session, op Op) util.Result {
 	return util.Result{Err: "unknown mutation"}
 }
 
+// cheap observation inside a burst: SHOW DATABASES and the holding directory are read; fingerprints of databases
+// already seen in the previous observation are carried over (the full observation that ends the burst re-reads
+// every one of them, so a change is still noticed, one step later), new names are fingerprinted.
+func observeCheap(env *util.Env, prev []LiveDB, fresh string) ([]LiveDB, []string) {
+	live := []LiveDB{}
+	s, err := env.NewSession()
+	if err != nil {
+		return live, nil
+	}
+	s.Ctx.SetCurrentDatabase("information_schema")
+	_ = s.MustExec("SET @@autocommit = 1")
+	r := s.Exec("SHOW DATABASES")
+	names := []string{}
+	for _, row := range r.Rows {
+		n := str(row[0])
+		if n != "information_schema" && n != "mysql" {
+			names = append(names, n)
+		}
+	}
+	sort.Strings(names)
+	for _, n := range names {
+		fp := ""
+		if !strings.EqualFold(n, fresh) {
+			for _, p := range prev {
+				if p.Name == n {
+					fp = p.FP
+				}
+			}
+		}
+		if fp == "" {
+			fp, _ = fingerprint(s, n)
+		}
+		live = append(live, LiveDB{Name: n, FP: fp})
+	}
+	_, dropped := observeDropped(env)
+	return live, dropped
+}
+
+func exec1(env *util.Env, q string) util.Result {
+	s, err := env.NewSession()
+	if err != nil {
+		return util.Result{Err: err.Error()}
+	}
+	s.Ctx.SetCurrentDatabase("information_schema")
+	if e := s.MustExec("SET @@autocommit = 1"); e != nil {
+		return util.Result{Err: e.Error()}
+	}
+	return s.Exec(q)
+}
+
+func burst(env *util.Env, op Op, prev []LiveDB, debug bool) []StepObs {
+	out := []StepObs{}
+	var lastSec int64
+	hit := false
+	minG := op.G
+	if minG < 3 {
+		minG = 3
+	}
+	for g := 1; g <= 6 && !(hit && g > minG); g++ {
+		r := exec1(env, fmt.Sprintf("CREATE DATABASE `%s`", op.N))
+		o := StepObs{K: "create", N: op.N, OK: r.Err == "", Msg: r.Err}
+		o.Live, o.Dropped = observeCheap(env, prev, op.N)
+		out = append(out, o)
+		prev = o.Live
+		if r.Err != "" {
+			break
+		}
+		if g == 2 && time.Now().Nanosecond() > 300_000_000 {
+			// start the second generation's drop right after a second boundary so that the third follows within the same second
+			time.Sleep(time.Duration(1_000_000_000-time.Now().Nanosecond())*time.Nanosecond + 2*time.Millisecond)
+		}
+		sec := time.Now().Unix()
+		r = exec1(env, fmt.Sprintf("DROP DATABASE `%s`", op.N))
+		o = StepObs{K: "drop", N: op.N, OK: r.Err == "", Msg: r.Err, Sec: sec, SameSec: g >= 3 && sec == lastSec}
+		if o.SameSec {
+			hit = true
+		}
+		lastSec = sec
+		o.Live, o.Dropped = observeCheap(env, prev, "")
+		out = append(out, o)
+		prev = o.Live
+		if r.Err != "" {
+			break
+		}
+	}
+	// the burst ends with a full observation
+	if n := len(out); n > 0 {
+		out[n-1].Live, out[n-1].Dropped = observe(env, debug)
+	}
+	return out
+}
+
 func Run(raw json.RawMessage) (any, error) {
 	var c Case
 	if err := json.Unmarshal(raw, &c); err != nil {
@@ -216,8 +321,18 @@ func Run(raw json.RawMessage) (any, error) {
 	var obs Obs
 	obs.Steps = []StepObs{}
 	obs.Init.OK = true
+	obs.Init.K = "init"
 	obs.Init.Live, obs.Init.Dropped = observe(env, c.Debug)
+	prevLive := obs.Init.Live
 	for _, op := range c.Ops {
+		if op.K == "burst" {
+			steps := burst(env, op, prevLive, c.Debug)
+			obs.Steps = append(obs.Steps, steps...)
+			if len(steps) > 0 {
+				prevLive = steps[len(steps)-1].Live
+			}
+			continue
+		}
 		s, err := env.NewSession()
 		if err != nil {
 			return nil, err
@@ -254,10 +369,11 @@ func Run(raw json.RawMessage) (any, error) {
 				return nil, fmt.Errorf("unknown op %q", op.K)
 			}
 		}
-		var o StepObs
+		o := StepObs{K: op.K, N: op.N, M: op.M, I: op.I}
 		o.OK, o.Msg, o.Arg = r.Err == "", r.Err, arg
 		o.Live, o.Dropped = observe(env, c.Debug)
 		obs.Steps = append(obs.Steps, o)
+		prevLive = o.Live
 	}
 	return obs, nil
 }
